@@ -8,7 +8,9 @@ package main
 //     a name token written !<hex>: the tree of that module is obtained with Modules.GetModule(name) after Process
 //     (lookups that lead into it must return the nodes of THAT tree)
 //     opts: c, n as for process; l = after Process and after the module trees have been collected, load an unrelated
-//     module, a rejected text and a missing file WITHOUT calling Process again, then run the queries
+//     module, a rejected text and a missing file WITHOUT calling Process again, then run the queries;
+//     b<stride> (last option) = big module set: no dump after the queries ("runs" carries only the errors), instead the
+//     oracle find17Sweep over the trees, reported as "sweepviol" (violated lookups), "sweepcount", "nodes"
 //     step = C<hex> (child of Dir) | I (RPC.Input) | O (RPC.Output); the start module may be a submodule
 //   output: JSON {"loads":[..], "runs":[dump after the queries], "find":[r1,...]}
 //     r = "<ctx>|<res>": ctx = name of the (sub)module whose text defines the start node (RootNode(e.Node), the
@@ -21,6 +23,7 @@ import (
 	"encoding/json"
 	"os"
 	"path/filepath"
+	"sort"
 	"strconv"
 	"strings"
 
@@ -31,6 +34,135 @@ type find17Out struct {
 	Loads []string   `json:"loads"`
 	Runs  []*runDump `json:"runs"`
 	Find  []string   `json:"find"`
+	// option b (big module sets: no dump): the implementation-side oracle of find17Sweep
+	SweepViol  []string `json:"sweepviol,omitempty"`
+	SweepCount int      `json:"sweepcount,omitempty"`
+	Nodes      int      `json:"nodes,omitempty"`
+}
+
+// find17Sweep checks the property's text directly on the trees the caller holds (roots: ToEntry of every module,
+// collected once after Process): for every node t of the tree of a module -- every stride-th one among the children of
+// directories with more than 64 children --, reached by walking Dir and RPC.Input/Output from the root, the absolute
+// path of t written with the module's own prefix (input/output spelled out) is looked up from the root entry, from t
+// itself and from another child of the root (the latter two when written in the module's own text, so that the
+// module's own prefix is the one that applies) and from the root entries of up to two modules that import the module,
+// with the prefix they gave it; the result must be t (pointer identity).  From t, as many ".."
+// as t is deep must lead to the root entry the walk started from, and "../<name>" to t again.
+const find17SweepMax = 12
+
+func find17Sweep(ms *yang.Modules, byName map[string]*yang.Entry, stride int, out *find17Out) {
+	bad := func(s string) {
+		if len(out.SweepViol) < find17SweepMax {
+			out.SweepViol = append(out.SweepViol, s)
+		}
+	}
+	show := func(e *yang.Entry) string {
+		if e == nil {
+			return "nothing"
+		}
+		return "a " + kindName(e.Kind) + " " + e.Name + " (another node)"
+	}
+	var names []string
+	for n := range ms.Modules {
+		if !strings.Contains(n, "@") {
+			names = append(names, n)
+		}
+	}
+	sort.Strings(names)
+	for _, mn := range names {
+		m := ms.Modules[mn]
+		root := byName[m.Name]
+		if root == nil || m.Prefix == nil {
+			continue
+		}
+		pfx := m.Prefix.Name
+		var other *yang.Entry
+		type importer struct {
+			name, prefix string
+			root         *yang.Entry
+		}
+		var importers []importer
+		for _, fn := range names {
+			for _, i := range ms.Modules[fn].Import {
+				if i.Module == m && i.Prefix != nil && byName[fn] != nil && fn != mn && len(importers) < 2 && yang.FindModuleByPrefix(ms.Modules[fn], i.Prefix.Name) == m {
+					importers = append(importers, importer{fn, i.Prefix.Name, byName[fn]})
+					break
+				}
+			}
+		}
+		var walk func(e *yang.Entry, parts []string)
+		walk = func(e *yang.Entry, parts []string) {
+			out.Nodes++
+			if len(out.SweepViol) >= find17SweepMax {
+				return
+			}
+			if len(parts) > 0 {
+				p := "/" + strings.Join(parts, "/")
+				starts := []*yang.Entry{root}
+				for _, im := range importers {
+					// from the root entry of a module that imports m, with the prefix it gave to m
+					var ps []string
+					for _, x := range parts {
+						ps = append(ps, im.prefix+strings.TrimPrefix(x, pfx))
+					}
+					ip := "/" + strings.Join(ps, "/")
+					out.SweepCount++
+					if got := im.root.Find(ip); got != e {
+						bad("Find(" + ip + ") from the root entry of module " + im.name + " returned " + show(got))
+					}
+				}
+				if e.Node != nil && yang.RootNode(e.Node) == m {
+					starts = append(starts, e)
+				}
+				if other != nil {
+					starts = append(starts, other)
+				}
+				for _, s := range starts {
+					out.SweepCount++
+					if got := s.Find(p); got != e {
+						bad("Find(" + p + ") from " + s.Path() + " of module " + mn + " returned " + show(got))
+						break
+					}
+				}
+				out.SweepCount++
+				up := strings.TrimSuffix(strings.Repeat("../", len(parts)), "/")
+				if got := e.Find(up); got != root {
+					bad("Find(" + up + ") from " + p + " of module " + mn + " returned " + show(got) + ", not the root entry of the tree")
+				}
+				if e.Parent != nil && e.Parent.RPC == nil {
+					out.SweepCount++
+					if got := e.Find("../" + e.Name); got != e {
+						bad("Find(../" + e.Name + ") from " + p + " of module " + mn + " returned " + show(got))
+					}
+				}
+			}
+			if e.RPC != nil {
+				if e.RPC.Input != nil {
+					walk(e.RPC.Input, append(append([]string{}, parts...), pfx+":input"))
+				}
+				if e.RPC.Output != nil {
+					walk(e.RPC.Output, append(append([]string{}, parts...), pfx+":output"))
+				}
+			}
+			var keys []string
+			for k := range e.Dir {
+				keys = append(keys, k)
+			}
+			sort.Strings(keys)
+			for i, k := range keys {
+				if len(keys) > 64 && stride > 1 && i%stride != 0 && i != len(keys)-1 {
+					out.Nodes++
+					continue
+				}
+				c := e.Dir[k]
+				if o := e.Dir[keys[len(keys)-1-i]]; len(parts) == 0 && other == nil && o != c && o.Node != nil && yang.RootNode(o.Node) == m {
+					other = o
+				}
+				walk(c, append(append([]string{}, parts...), pfx+":"+k))
+			}
+		}
+		walk(root, nil)
+	}
 }
 
 func find17Pos(e *yang.Entry, roots map[*yang.Entry]string) string {
@@ -139,6 +271,20 @@ func runFind17(toks []string) string {
 		}
 		nq, _ := strconv.Atoi(toks[pos])
 		pos++
+		if strings.Contains(opts, "b") {
+			// big module set: the sweep comes first (it looks up existing nodes only, so it creates nothing); when it
+			// fails all along, the queries are not run any more
+			stride := 1
+			if i := strings.Index(opts, "b"); i+1 < len(opts) {
+				if v, err := strconv.Atoi(opts[i+1:]); err == nil && v > 0 {
+					stride = v
+				}
+			}
+			find17Sweep(ms, byName, stride, out)
+			if len(out.SweepViol) >= find17SweepMax {
+				nq = 0
+			}
+		}
 		for q := 0; q < nq; q++ {
 			e := byName[string(unhex(toks[pos]))]
 			ns, _ := strconv.Atoi(toks[pos+1])
@@ -187,7 +333,9 @@ func runFind17(toks []string) string {
 				out.Find = append(out.Find, ctx+"|"+find17Pos(got, roots)+":"+enhex([]byte(got.Name))+":"+kindName(got.Kind))
 			}
 		}
-		dumpModules(ms, run, false)
+		if !strings.Contains(opts, "b") {
+			dumpModules(ms, run, false)
+		}
 	}
 	b, err := json.Marshal(out)
 	if err != nil {
@@ -197,10 +345,11 @@ func runFind17(toks []string) string {
 }
 
 // findrev <n> (<file name hex> <text hex>){n} <nq> (<start module key hex> <nsteps> step* <path hex>){nq}
-//   several revisions of one module may be loaded; the start module is given by its key in Modules.Modules
-//   ("name" or "name@revision").  Output: "loaderr" | "err" | "ok r1 r2 ..." with
-//   r = "-" (nil) | "nostart" | "<full name of the module whose entry tree holds the result>|<hex of Entry.Path()>"
-//   (the tree is identified by pointer: the root reached through Parent is ToEntry(m) of exactly that module).
+//
+//	several revisions of one module may be loaded; the start module is given by its key in Modules.Modules
+//	("name" or "name@revision").  Output: "loaderr" | "err" | "ok r1 r2 ..." with
+//	r = "-" (nil) | "nostart" | "<full name of the module whose entry tree holds the result>|<hex of Entry.Path()>"
+//	(the tree is identified by pointer: the root reached through Parent is ToEntry(m) of exactly that module).
 func runFindRev(toks []string) string {
 	n, _ := strconv.Atoi(toks[0])
 	ms := yang.NewModules()
